@@ -16,7 +16,8 @@ Record BInv (H : bytes) (rs : list kv) (f : bytes) (b : backend) : Prop := {
   bi_has : has_uk b = true;
   bi_qwf : Forall wfkv (queue b);
   bi_nodup : NoDup (map fst (rs ++ queue b));
-  bi_listed : forall k, In k (bkeys b) -> In k (map fst (rs ++ queue b))
+  bi_listed : forall k, In k (bkeys b) -> In k (map fst (rs ++ queue b));
+  bi_writing : st b = SWriting
 }.
 
 Lemma wfkv_wfb k v : wfkv (k, v) -> wfb k v = true.
@@ -52,7 +53,7 @@ Lemma flush_valid H rs f b : BInv H rs f b ->
   exists b', flush f b = (H ++ blocks (rs ++ queue b), b', None) /\ queue b' = [] /\ bkeys b' = bkeys b /\
              BInv H (rs ++ queue b) (H ++ blocks (rs ++ queue b)) b'.
 Proof.
-  intros I. destruct b as [h hu q ks u bs r s]. destruct I as [Ef Hh Hwf Hfull Hc Hm Hhas Hq Hnd Hl]. simpl in *. subst hu.
+  intros I. destruct b as [h hu q ks u bs r s]. destruct I as [Ef Hh Hwf Hfull Hc Hm Hhas Hq Hnd Hl Hw]. simpl in *. subst hu.
   destruct (flush_loop_valid H q (S (length q)) rs f h ks u bs r s (Nat.lt_succ_diag_r _) Ef Hfull Hc Hm Hq Hnd) as [h' [E [A [B C]]]].
   unfold flush. cbn [queue]. rewrite E. eexists. split; [reflexivity|]. split; [reflexivity|]. split; [reflexivity|].
   constructor; simpl; try assumption; try reflexivity.
@@ -76,7 +77,8 @@ Theorem listed_readable H rs f b k :
 Proof.
   intros I Hk. pose proof (bi_listed _ _ _ _ I k Hk) as Hin.
   destruct (assoc_in_keys _ _ Hin) as [v Hv]. exists v.
-  unfold b_get. destruct (existsb (fun p => beq k (fst p)) (queue b)) eqn:Eq.
+  unfold b_get, writing. rewrite (bi_writing _ _ _ _ I). cbn [andb].
+  destruct (existsb (fun p => beq k (fst p)) (queue b)) eqn:Eq.
   - destruct (flush_valid H rs f b I) as [b' [E [Eq' [Ek I']]]]. rewrite E.
     rewrite (bi_has _ _ _ _ I'). simpl.
     pose proof (get_spec H (rs ++ queue b) [] (uk b') k (bi_full _ _ _ _ I') (bi_open _ _ _ _ I')) as G.
@@ -106,7 +108,7 @@ Proof.
   set (b1 := mkb (uk b) (has_uk b) (queue b ++ [(k, v)]) (set_add (bkeys b) k)
                  (used b + Z.of_N (len k) + Z.of_N (len v))%Z (bufsize b) false (st b)).
   assert (I1 : BInv H rs f b1).
-  { destruct I as [Ef Hh Hwf Hfull Hc Hm Hhas Hq Hnd Hl]. constructor; simpl; try assumption.
+  { destruct I as [Ef Hh Hwf Hfull Hc Hm Hhas Hq Hnd Hl Hw]. constructor; simpl; try assumption.
     - apply Forall_app. split; [exact Hq|constructor; [exact Hkv|constructor]].
     - rewrite app_assoc, map_app. simpl. apply NoDup_snoc; assumption.
     - intros k0 Hk0. unfold set_add in Hk0. rewrite app_assoc, map_app. simpl. apply in_or_app.
@@ -193,7 +195,8 @@ Lemma b_get_inv H rs f b k :
                       BInv H rs' f' b' /\ rs' ++ queue b' = rs ++ queue b /\ bkeys b' = bkeys b.
 Proof.
   intros I Hk. destruct (listed_readable H rs f b k I Hk) as [v [f' [b' [E Hv]]]].
-  exists v. unfold b_get in *. destruct (existsb (fun p => beq k (fst p)) (queue b)) eqn:Eq.
+  exists v. unfold b_get, writing in *. rewrite (bi_writing _ _ _ _ I) in *. cbn [andb] in *.
+  destruct (existsb (fun p => beq k (fst p)) (queue b)) eqn:Eq.
   - destruct (flush_valid H rs f b I) as [b2 [E2 [Eq2 [Ek2 I2]]]]. rewrite E2 in *.
     rewrite (bi_has _ _ _ _ I2) in *. simpl in *.
     exists (rs ++ queue b), (H ++ blocks (rs ++ queue b)), b2.
